@@ -98,6 +98,8 @@ def run(ctx: core.Ctx) -> None:
         replay_records(ctx, recs, all_types=(not quick and name == 'fills'), what=name, pd_all=(quick or name == 'fills'),
                        ntypes=2 if quick else 4)
         ctx.extra.setdefault('phase_wall_s', {})[name] = {'tlc': round(t1 - t0, 1), 'replay': round(time.time() - t1, 1)}
+    from . import c09
+    c09.container_traces(ctx)
     ctx.exhaustive = True
     ctx.extra['bound'] = {'old_span_length': n, 'new_span_length': n, 'label_ids': 5}
     ctx.assumptions += [
@@ -111,6 +113,9 @@ def run(ctx: core.Ctx) -> None:
 
 
 def replay(data) -> int:
+    if data.get('direction') == 'code->spec':
+        from .. import trace_container as tc
+        return tc.replay(data)
     only = {'type': data['type'], 'cls': data['cls']}
     out = core.run_workers('harness.replay_reindex', [{'records': [data['record']], 'all_types': True, 'seed': 0, 'only': only}])[0]
     hits = [m for m in out['mismatches'] if m['key'] == data['key']] or out['mismatches']
